@@ -34,5 +34,5 @@ MCSpec == Init /\ [][MCNext]_vars
 
 \* ghost and label variables do not influence behaviour
 View == <<fs, committed, stale, payload, wpc, wblks, wk, wcol, wh, wpos, wopen, wplan, wname, wres,
-          rpc, rname, rmeta, ridx, rcol, ropen, rres, rretry>>
+          rpc, rname, rmeta, ridx, rcol, ropen, rres, rretry, rwhy>>
 =============================================================================
